@@ -239,9 +239,56 @@ def run(ctx):
               key=('K2', 'branch'), site=site, detail={'SKEYSEED': tq.text(skeyseed, 400)})
     common.expect_term(ctx, 'K2', V, initial, 'Prf(ike_proposal.get_transform(Transform.Type.PRF)).prf(nonce_i + nonce_r, shared_secret)',
                        'initial SKEYSEED = prf(Ni | Nr, g^ir)', ('K2', 'initial'), site)
-    common.expect_term(ctx, 'K2', V, rekey,
-                       'Prf(ike_proposal.get_transform(Transform.Type.PRF)).prf(old_sk_d, shared_secret + nonce_i + nonce_r)',
-                       'rekey SKEYSEED = prf(SK_d(old), g^ir | Ni | Nr)', ('K2', 'rekey'), site)
+    # RFC 7296 2.18: the rekey exchange belongs to the old IKE_SA, so this prf is the OLD IKE_SA's (the two may have negotiated different
+    # PRFs); the PRF of the new IKE_SA takes over from prf+ on (K3).  The old PRF travels with the old SK_d.
+    if 'old_prf' not in prm:
+        new_prf_form = V.expr('Prf(ike_proposal.get_transform(Transform.Type.PRF)).prf(old_sk_d, shared_secret + nonce_i + nonce_r)')
+        if same(rekey, new_prf_form):
+            ctx.bad('K2', ('K2', 'rekey'), 'rekey SKEYSEED is computed with the PRF negotiated for the NEW IKE_SA; RFC 7296 2.18 prescribes the '
+                    'PRF of the old IKE_SA (the keys differ from a conformant peer\'s whenever the rekey selects another PRF)', site,
+                    {'found': tq.text(rekey, 300)})
+            return
+        ctx.require(False, 'anchor vanished: generate_ike_sa_key_material(..., old_sk_d, old_prf) - the PRF of the IKE_SA being '
+                    'rekeyed is not an input of the derivation')
+    oprf = ('param', 'old_prf')
+    rekey_old = tq.restrict(rekey, tq.truthy_decider(oprf, True))
+    want = [V.expr('old_prf.prf(old_sk_d, shared_secret + nonce_i + nonce_r)'),
+            V.expr('(old_prf or Prf(ike_proposal.get_transform(Transform.Type.PRF))).prf(old_sk_d, shared_secret + nonce_i + nonce_r)')]
+    ctx.check(any(same(rekey_old, w) for w in want), 'K2',
+              'rekey SKEYSEED = prf(SK_d(old), g^ir | Ni | Nr) with the PRF of the old IKE_SA (RFC 7296 2.18)', key=('K2', 'rekey'), site=site,
+              detail={'found': tq.text(rekey_old, 400)})
+    # ... and the callers hand over the PRF of the IKE_SA being rekeyed wherever they hand over its SK_d
+    SELF = ('param', 'self')
+    own_prf = ('attr', ('attr', SELF, 'my_crypto'), 'prf')
+    own_skd = ('attr', ('attr', SELF, 'ike_sa_keyring'), 'sk_d')
+    npass = 0
+    for q in ('ikesa.IkeSa._process_ike_sa_negotiation_request', 'ikesa.IkeSa.process_ike_sa_negotiation_response'):
+        fi = ctx.func(q)
+        S = ctx.sval(fi)
+        for c in S.calls_to(qual='ikesa.IkeSa.generate_ike_sa_key_material'):
+            npass += 1
+            ctx.check(c.args.get('old_sk_d') == ('param', 'old_sk_d') and c.args.get('old_prf') == oprf, 'K2',
+                      '%s passes the old SK_d and the old PRF it was given on to the derivation' % fi.name,
+                      key=('K2', 'old-prf-passed', q), site=ctx.site(fi, c.node),
+                      detail={'old_sk_d': tq.text(c.args.get('old_sk_d', NONE)), 'old_prf': tq.text(c.args.get('old_prf', NONE))})
+    ctx.floor('K2 derivation calls in the negotiation functions', npass, 2, rule='K2')
+    nrek = 0
+    for q in ('ikesa.IkeSa.process_create_child_sa_request', 'ikesa.IkeSa.process_create_child_sa_response',
+              'ikesa.IkeSa.process_ike_sa_init_request', 'ikesa.IkeSa.process_ike_sa_init_response'):
+        fi = ctx.func(q)
+        S = ctx.sval(fi)
+        for c in S.calls_to(qual='ikesa.IkeSa._process_ike_sa_negotiation_request') + S.calls_to(qual='ikesa.IkeSa.process_ike_sa_negotiation_response'):
+            skd, oprf_a = c.args.get('old_sk_d', NONE), c.args.get('old_prf', NONE)
+            if skd in (None, NONE):
+                ctx.check(oprf_a in (None, NONE), 'K2', '%s: an initial derivation has neither an old SK_d nor an old PRF' % fi.name,
+                          key=('K2', 'old-prf-initial', q), site=ctx.site(fi, c.node))
+            else:
+                nrek += 1
+                ctx.check(strip_ids(skd) == own_skd and strip_ids(oprf_a) == own_prf, 'K2',
+                          '%s: the rekey derivation gets SK_d and PRF of this (the old) IKE_SA' % fi.name,
+                          key=('K2', 'old-prf-caller', q), site=ctx.site(fi, c.node),
+                          detail={'old_sk_d': tq.text(skd), 'old_prf': tq.text(oprf_a)})
+    ctx.floor('K2 rekey derivations (responder and initiator)', nrek, 2, rule='K2')
     common.expect_term(ctx, 'K3', V, ka.get(pp.call_params()[1]), 'nonce_i + nonce_r + spi_i + spi_r',
                        'SK_* seed material = prf+(SKEYSEED, Ni | Nr | SPIi | SPIr, ...)', ('K3', 'seed'), site)
     env = {'prf': 5, 'integ': 7, 'encr': 11}
